@@ -1205,8 +1205,138 @@ def translate_script(repo):
     return hdr + t.run()
 
 
+# ---------------------------------------------------------------------------------------------
+# toasty/cli.py: the *_impl functions of the command line as decision trees of calls
+
+class ImplTranslator:
+    """A command-line `*_impl(settings)` function as a decision tree (stree, Model/SrcPrelude.v) whose
+    inner nodes are the tests it makes on its settings (`x is None`, `x is not None`, `x == "lit"`) and
+    whose leaves are the calls made on that path, in order, with symbolic arguments: settings.a is
+    SAttr "a" (SName "settings"), Cls(p, k=v) is SNewP "Cls" [p] [("k", v)], a name imported inside the
+    function is SName, None / strings / booleans / integers are SNoneV / SStr / SB / SZ; a local
+    assigned on a path has the value assigned on that path.  die(...) ends a path (TDie), a bare return
+    or the end of the body ends it normally (TDone).  Imports and print calls are dropped.  Anything
+    else fails (fail closed)."""
+
+    def __init__(self, source, name):
+        self.tree = ast.parse(source)
+        fds = [n for n in self.tree.body if isinstance(n, ast.FunctionDef) and n.name == name]
+        if len(fds) != 1:
+            raise Unsupported(f"function {name} not found in cli.py")
+        self.fd = fds[0]
+        if [a.arg for a in self.fd.args.args] != ["settings"] or self.fd.args.vararg or self.fd.args.kwarg or self.fd.args.defaults:
+            raise Unsupported(f"signature of {name} outside the subset")
+        self.imported = set()
+        for n in ast.walk(self.fd):
+            if isinstance(n, ast.ImportFrom):
+                self.imported.update(a.asname or a.name for a in n.names)
+
+    def fail(self, node, why):
+        raise Unsupported(f"line {getattr(node, 'lineno', '?')}: {why}: {ast.dump(node)[:140]}")
+
+    @staticmethod
+    def lit(sv):
+        return '"' + sv.replace('"', '""') + '"'
+
+    def sval(self, e, env):
+        if isinstance(e, ast.Constant):
+            if e.value is None:
+                return "SNoneV"
+            if isinstance(e.value, bool):
+                return f"(SB {'true' if e.value else 'false'})"
+            if isinstance(e.value, int):
+                return f"(SZ {e.value})" if e.value >= 0 else f"(SZ ({e.value}))"
+            if isinstance(e.value, str):
+                return f"(SStr {self.lit(e.value)})"
+        if isinstance(e, ast.Name):
+            if e.id in env:
+                return env[e.id]
+            if e.id == "settings" or e.id in self.imported:
+                return f"(SName {self.lit(e.id)})"
+            self.fail(e, "unknown name")
+        if isinstance(e, ast.Attribute):
+            return f"(SAttr {self.lit(e.attr)} {self.sval(e.value, env)})"
+        if isinstance(e, ast.Call) and isinstance(e.func, ast.Name) and e.func.id in self.imported:
+            pos = "; ".join(self.sval(a, env) for a in e.args)
+            kws = "; ".join(f"({self.lit(k.arg)}, {self.sval(k.value, env)})" for k in e.keywords)
+            return f"(SNewP {self.lit(e.func.id)} [{pos}] [{kws}])"
+        self.fail(e, "value outside the subset")
+
+    def run_block(self, stmts, env, calls):
+        if not stmts:
+            return f"(TDone [{'; '.join(calls)}])"
+        s, rest = stmts[0], stmts[1:]
+        if isinstance(s, (ast.Import, ast.ImportFrom)):
+            return self.run_block(rest, env, calls)
+        if isinstance(s, ast.Expr) and isinstance(s.value, ast.Constant):
+            return self.run_block(rest, env, calls)
+        if isinstance(s, ast.Return) and s.value is None:
+            return f"(TDone [{'; '.join(calls)}])"
+        if isinstance(s, ast.Expr) and isinstance(s.value, ast.Call) and isinstance(s.value.func, ast.Name):
+            fn = s.value.func.id
+            if fn == "print":
+                return self.run_block(rest, env, calls)
+            if fn == "die":
+                return f"(TDie [{'; '.join(calls)}])"
+            if fn not in self.imported:
+                self.fail(s, "call of something that was not imported in the function")
+            pos = "; ".join(self.sval(a, env) for a in s.value.args)
+            kws = "; ".join(f"({self.lit(k.arg)}, {self.sval(k.value, env)})" for k in s.value.keywords)
+            return self.run_block(rest, env, calls + [f"(SCall {self.lit(fn)} [{pos}] [{kws}])"])
+        if isinstance(s, ast.Assign) and len(s.targets) == 1 and isinstance(s.targets[0], ast.Name):
+            env2 = dict(env)
+            env2[s.targets[0].id] = self.sval(s.value, env)
+            return self.run_block(rest, env2, calls)
+        if isinstance(s, ast.If):
+            t = s.test
+            yes, no = list(s.body) + rest, list(s.orelse) + rest
+            if isinstance(t, ast.Compare) and len(t.ops) == 1 and isinstance(t.comparators[0], ast.Constant):
+                v = self.sval(t.left, env)
+                c = t.comparators[0].value
+                if isinstance(t.ops[0], ast.Is) and c is None:
+                    return f"(TIfNone {v} {self.run_block(yes, env, calls)} {self.run_block(no, env, calls)})"
+                if isinstance(t.ops[0], ast.IsNot) and c is None:
+                    return f"(TIfNone {v} {self.run_block(no, env, calls)} {self.run_block(yes, env, calls)})"
+                if isinstance(t.ops[0], ast.Eq) and isinstance(c, str):
+                    return f"(TIfEq {v} {self.lit(c)} {self.run_block(yes, env, calls)} {self.run_block(no, env, calls)})"
+            self.fail(s, "test outside the subset")
+        self.fail(s, "statement outside the subset")
+
+    def run(self):
+        body = self.run_block(list(self.fd.body), {}, [])
+        return f"Definition src_cli_{self.fd.name} : stree unit :=\n  {body}.\n"
+
+
+CLI_HEADER = """(* GENERATED by harness/py2coq.py from toasty/cli.py ({names}) -- do not edit; regenerated on every run. *)
+From Coq Require Import ZArith String List Bool.
+From Toasty Require Import Model.SrcPrelude.
+Import ListNotations.
+Local Open Scope string_scope.
+Local Open Scope Z_scope.
+Local Open Scope list_scope.
+
+"""
+
+
+def translate_cli(repo, names):
+    import os
+    src = open(os.path.join(str(repo), "toasty", "cli.py")).read()
+    return CLI_HEADER.format(names=", ".join(names)) + "\n".join(ImplTranslator(src, n).run() for n in names)
+
+
+def translate_cli_cascade(repo):
+    """Gallina text for cli.cascade_impl (raises Unsupported)"""
+    return translate_cli(repo, ["cascade_impl"])
+
+
+def translate_cli_transform(repo):
+    """Gallina text for cli.transform_impl (raises Unsupported)"""
+    return translate_cli(repo, ["transform_impl"])
+
+
 if __name__ == "__main__":
     import sys
     which = sys.argv[2] if len(sys.argv) > 2 else "pyramid"
-    fn = {"pyramid": translate_pyramid, "study": translate_study, "paths": translate_paths, "script": translate_script}[which]
+    fn = {"pyramid": translate_pyramid, "study": translate_study, "paths": translate_paths, "script": translate_script,
+          "cli_cascade": translate_cli_cascade, "cli_transform": translate_cli_transform}[which]
     sys.stdout.write(fn(sys.argv[1] if len(sys.argv) > 1 else "/repo"))
